@@ -168,7 +168,9 @@ def run(repo, rep):
             if ds:
                 return all(const_text(d, depth + 1) for d in ds)
             r_ = repo.resolve(warn.module, e.id)
-            return bool(r_ and r_[0] == 'assign' and all(const_text(v, depth + 1) for v in r_[1])) if r_ else False
+            if r_ and r_[0] == 'const':
+                return const_text(r_[2], depth + 1)
+            return False
         return False
     for c in ast.walk(warn.node):
         tmpl = None
@@ -191,42 +193,10 @@ def run(repo, rep):
     rep.floor('C14.c', n, 6)
 
     # ---------------------------------------------------------------- C14.d
-    n = 0
-    for f in handled_fns.values():
-        g = Guards(f.node)
-        raises = [r for r in ast.walk(f.node) if isinstance(r, ast.Raise) and r.exc is not None
-                  and isinstance(r.exc, ast.Call) and call_name(r.exc) == 'ValueError']
-        rets = [r for r in ast.walk(f.node) if isinstance(r, ast.Return) and isinstance(r.value, ast.Name)]
-        if not rets:
-            continue
-        rv = rets[-1].value.id
-        # only a function that returns what a printer call produced has a result to validate (a helper that merely looks a printer up
-        # and hands it back does not)
-        site_calls = [c for ff_, c, _ in sites if ff_ is f]
-        produced = any(isinstance(a, ast.Assign) and any(isinstance(t, ast.Name) and t.id == rv for t in a.targets)
-                       and any(x is c for c in site_calls for x in ast.walk(a.value)) for a in ast.walk(f.node))
-        if not produced:
-            continue
-        n += 1
-        rep.check(len(raises) >= 1, 'C14.d', '%s:validation-present' % f.qualname, f.where, 'return type is validated',
-                  'the result of a printer is no longer validated (ValueError for non str/Doc results)', nontrivial=True)
-        for r in raises:
-            fs = g.of(r)
-            neg = {t for ff in fs if not ff.pol for t in _isinstance_types(ff.test, rv)}
-            pos_compound = any(ff.pol and _is_not_of(ff.test) and set(_isinstance_types(_strip_not(ff.test), rv)) >= {'str', 'Doc'} for ff in fs)
-            n += 1
-            rep.check(neg >= {'str', 'Doc'} or pos_compound, 'C14.d', '%s:validation-polarity' % f.qualname, '%s:%d' % (f.module.relpath, r.lineno),
-                      'ValueError exactly when the result is neither str nor Doc',
-                      'the ValueError for a bad printer result is raised under %s' % g.texts(r), nontrivial=True)
-        for r in rets:
-            fs = g.of(r)
-            ok = any(ff.pol and set(_isinstance_types(ff.test, rv)) >= {'str', 'Doc'} for ff in fs) or \
-                any((not ff.pol) and _is_not_of(ff.test) and set(_isinstance_types(_strip_not(ff.test), rv)) >= {'str', 'Doc'} for ff in fs)
-            n += 1
-            rep.check(ok, 'C14.d', '%s:validated-before-return' % f.qualname, '%s:%d' % (f.module.relpath, r.lineno),
-                      'every returned document passed the str/Doc check',
-                      'the wrapper returns the printer result without having validated its type on this path (%s)' % g.texts(r),
-                      nontrivial=True)
+    # a non-document result is an error of the printer (ValueError at top level, contained like any failure below one): decided on the
+    # interpreted pipeline - scenarios "printer returning None", "non-document return value ..." of the wrapper model above (C14.a
+    # instances whose label says so); a validation with the wrong polarity makes every leaf printer of every scenario fail
+    n = sum(1 for i in rep.instances if i.rule == 'C14.a' and ('non-document' in i.construct or 'returning None' in i.construct))
     rep.floor('C14.d', n, 3)
 
 
